@@ -71,7 +71,7 @@ fn depths(report: &Report) -> (usize, bool, bool) {
 
 pub fn run(report: &Report, budget: &Budget) {
     let (d, full, allcp) = depths(report);
-    let st = hist::explore(report, budget, "C02", d, full, allcp, &oracle, None, None);
+    let st = hist::explore(report, budget, "C02", d, full, allcp, true, &oracle, None, None);
     hist::write_stats(report, &st, d);
 }
 
@@ -85,7 +85,7 @@ pub fn depth_states_as_scenarios(_srcs: &SrcCache, depth: usize, budget: &Budget
     let collected: Mutex<Vec<HState>> = Mutex::new(Vec::new());
     let sub = Budget::new(((1.0 - budget.frac()) * 0.3 * 1200.0).max(30.0) as u64);
     let noop = |_: &Transition| Vec::new();
-    hist::explore(&dummy, &sub, "C03", depth, false, false, &noop, None, Some(&collected));
+    hist::explore(&dummy, &sub, "C03", depth, false, false, false, &noop, None, Some(&collected));
     let mut out = Vec::new();
     for st in collected.into_inner().unwrap() {
         for (i, src) in [hist::SRC0, hist::SRC0.set(0, 2).set(2, 2).set(1, 0)].iter().enumerate() {
